@@ -70,6 +70,13 @@ def claim(src, name, dst=255, ln=8):
     return rx(can_id(6, 60928, src, dst), list(name.to_bytes(8, 'little'))[:ln])
 
 
+def backlog(r, k, significant):
+    """ops: k ordinary single frames waiting in the driver in front of the significant frame(s), then polls - one ParseMessages call
+    takes at most 20 frames, the rest stays in the driver for the next call (k around 20 puts the significant frame on either side)"""
+    fill = [rx(can_id(r.choice([2, 3, 6]), r.choice([127250, 127488, 129025, 130306]), r.choice([50, 51, 60]), 255), [r.randrange(256) for _ in range(8)]) for _ in range(k)]
+    return fill + list(significant) + ['P', 'T 5', 'P', 'T 260', 'P', 'T 5', 'P']
+
+
 FAST_PGNS = [126996, 126998, 126464, 129029, 127489, 128275, 129540, 130816, 130900, 126720]
 SINGLE_PGNS = [127250, 127488, 129025, 130306, 59392, 65300, 61184, 126992]
 REQ_PGNS = [60928, 126464, 126996, 126998, 127250, 129029, 59904, 0, 130816, 127500, 130060, 65240, 126993, 126208, 0xffffff]
